@@ -45,10 +45,11 @@ type E struct {
 	baseOpts []ucfg.Option // PathSep, VarExp only (used for building)
 
 	// model evaluation state
-	active map[string]bool
-	depth  int
-	usedTwice bool
-	sawAbsorb bool
+	active    map[string]bool
+	depth     int
+	sawAbsorb bool           // a cycle was absorbed by a default or a resolver during this evaluation
+	evalCount map[string]int // how often each root setting was evaluated during this evaluation
+	force     bool           // evaluate the contents of containers reached through references
 }
 
 var (
@@ -409,7 +410,7 @@ const maxModelDepth = 64
 func (e *E) evalName(n Name) Outcome {
 	path := n.Path
 	if n.Nested != nil {
-		o := e.evalName(n.Nested.Name)
+		o := e.evalNameText(n.Nested.Name)
 		if o.E != EOK {
 			return o
 		}
@@ -443,23 +444,40 @@ func (e *E) evalName(n Name) Outcome {
 		if v != nil {
 			return Outcome{V: v}
 		}
-		o := e.evalSetting(s)
-		if o.E == ECycle || o.E == EUnresolved {
-			// not found or cyclic below: the resolvers are tried for this name (types.go: "If not found
-			// or we have a cyclic reference we try the environment resolvers") — only when the failure
-			// is this reference's own, which the model cannot tell apart from a nested one; both are
-			// accepted by the comparison (see accept()).
-		}
-		return o
+		e.evalCount[path]++
+		return e.evalSetting(s)
 	}
 	if sub, ok := e.subDict(e.root, path); ok {
 		d := &Val{K: VDict, D: map[string]*Val{}}
-		for k, s := range sub {
-			o := e.evalSetting(s)
+		if !e.force {
+			d.Origin = path
+			return Outcome{V: d} // contents not evaluated
+		}
+		ks := make([]string, 0, len(sub))
+		for k := range sub {
+			ks = append(ks, k)
+		}
+		sort.Strings(ks)
+		var bad []Outcome
+		for _, k := range ks {
+			e.evalCount[path+"."+k]++
+			o := e.evalSetting(sub[k])
 			if o.E != EOK {
-				return o
+				bad = append(bad, o)
+				continue
 			}
 			d.D[k] = o.V
+		}
+		if len(bad) == 1 {
+			return bad[0]
+		}
+		if len(bad) > 1 {
+			for _, b := range bad {
+				if b.E == EAny || b.E == EType {
+					return Outcome{E: EAny}
+				}
+			}
+			return Outcome{E: EErr}
 		}
 		return Outcome{V: d}
 	}
@@ -472,12 +490,72 @@ func (e *E) evalName(n Name) Outcome {
 			}
 			return Outcome{V: s.lit}
 		}
+		if sub, ok := e.subDict(e.envs[i], path); ok {
+			d := &Val{K: VDict, D: map[string]*Val{}}
+			for k, s := range sub {
+				d.D[k] = s.lit
+			}
+			return Outcome{V: d}
+		}
 	}
 	// 3. resolvers, most recently added first
 	if o, ok := e.fromResolvers(path); ok {
 		return o
 	}
 	return Outcome{E: EUnresolved}
+}
+
+// evalNameText evaluates a name whose value is wanted as text: the contents of
+// a container it may resolve to are not evaluated.
+func (e *E) evalNameText(n Name) Outcome {
+	save := e.force
+	e.force = false
+	defer func() { e.force = save }()
+	return e.evalName(n)
+}
+
+// exists tells whether a name is set: known to the owning root, an Env config
+// or a resolver (with a non-empty answer), without evaluating it.
+func (e *E) exists(n Name) (bool, EKind) {
+	path := n.Path
+	if n.Nested != nil {
+		o := e.evalNameText(n.Nested.Name)
+		if o.E == EAny {
+			return false, EAny
+		}
+		if o.E != EOK {
+			return false, EOK // the name itself cannot be computed: unset
+		}
+		txt, ok := o.V.Text()
+		if !ok || txt == "" {
+			return false, EOK
+		}
+		path = txt
+	}
+	if !e.active[path] {
+		if s, v := lookupLayer(e.root, path); s != nil || v != nil {
+			return true, EOK
+		}
+		if _, ok := e.subDict(e.root, path); ok {
+			return true, EOK
+		}
+		for i := len(e.envs) - 1; i >= 0; i-- {
+			if s, v := lookupLayer(e.envs[i], path); s != nil || v != nil {
+				return true, EOK
+			}
+			if _, ok := e.subDict(e.envs[i], path); ok {
+				return true, EOK
+			}
+		}
+	} else {
+		// a reference that is still being evaluated: the cycle is absorbed by the operator
+		e.sawAbsorb = true
+	}
+	o, ok := e.fromResolvers(path)
+	if ok && o.E == EAny {
+		return false, EOK // empty answer: unset
+	}
+	return ok, EOK
 }
 
 func (e *E) fromResolvers(path string) (Outcome, bool) {
@@ -488,8 +566,9 @@ func (e *E) fromResolvers(path string) (Outcome, bool) {
 			continue
 		}
 		if r.empty[path] {
-			// an empty answer: the name is known but unset-or-empty
-			return Outcome{V: &Val{K: VStr, S: ""}}, true
+			// an empty answer: unset-or-empty for the operators; what a plain
+			// reference to it yields is left open by the statements
+			return Outcome{E: EAny, Msg: "empty"}, true
 		}
 		if txt, ok := r.store[path]; ok {
 			if i < len(e.res)-1 {
@@ -556,7 +635,10 @@ func (e *E) evalText(x Expr) (string, EKind, string) {
 		}
 		return b.String(), EOK, ""
 	case *Ref:
-		o := e.evalName(v.Name)
+		o := e.evalNameText(v.Name)
+		if o.E == EAny {
+			return "", EAny, ""
+		}
 		if o.E != EOK {
 			return "", o.E, o.Msg
 		}
@@ -566,15 +648,32 @@ func (e *E) evalText(x Expr) (string, EKind, string) {
 		}
 		return s, EOK, ""
 	case *Op:
-		o := e.evalName(v.Name)
+		if v.Kind == 'a' {
+			// ${x:+a}: a only when x is set - the name is looked up, not evaluated
+			set, k := e.exists(v.Name)
+			if k != EOK {
+				return "", k, ""
+			}
+			if set {
+				return e.evalText(v.Arg)
+			}
+			return "", EOK, ""
+		}
+		o := e.evalNameText(v.Name)
+		if o.E == EAny && o.Msg != "empty" {
+			return "", EAny, ""
+		}
 		set := o.E == EOK
 		txt := ""
 		if set {
 			var ok bool
 			txt, ok = o.V.Text()
 			if !ok {
-				return "", EType, ""
+				return "", EAny, "" // an operator applied to a container: left open
 			}
+		}
+		if o.E == EType {
+			return "", EAny, ""
 		}
 		switch v.Kind {
 		case 'd':
@@ -587,10 +686,8 @@ func (e *E) evalText(x Expr) (string, EKind, string) {
 			}
 			return e.evalText(v.Arg)
 		case 'a':
-			if set && txt != "" {
-				return e.evalText(v.Arg)
-			}
-			return "", EOK, ""
+			return "", EAny, "" // not reached: handled before evaluation
+
 		default:
 			if set && txt != "" {
 				return txt, EOK, ""
@@ -678,6 +775,11 @@ func (e *E) expect(op, what string, o Outcome, got string, err error) {
 		if err == nil {
 			e.R.Note("C02", "container spliced into text accepted")
 		}
+	case EAny:
+	case EErr:
+		if err == nil {
+			e.R.FailD("unresolved-is-error", op, map[string]string{"setting": what, "got": got}, "%s of %s = %s, but several settings it needs cannot be evaluated: expected an error", op, what, got)
+		}
 	}
 }
 
@@ -688,7 +790,31 @@ func (e *E) modelOf(path string) (Outcome, bool) {
 	}
 	e.active = map[string]bool{}
 	e.depth = 0
+	e.evalCount[path]++
 	return e.evalSetting(s), true
+}
+
+// begin starts the model's view of one library call.
+func (e *E) begin(force bool) {
+	e.sawAbsorb = false
+	e.evalCount = map[string]int{}
+	e.force = force
+}
+
+// ambiguous: a cycle was absorbed while some setting was evaluated more than
+// once. The library's per-call value cache then makes the value depend on
+// which evaluation came first; the statements do not say which, so the value
+// is not compared (termination and panics still are).
+func (e *E) ambiguous() bool {
+	if !e.sawAbsorb {
+		return false
+	}
+	for _, n := range e.evalCount {
+		if n > 1 {
+			return true
+		}
+	}
+	return false
 }
 
 func (e *E) settingNames() []string {
@@ -731,7 +857,13 @@ func (e *E) Read() {
 	}
 	path := names[t.Choose(len(names), "read-setting")]
 	e.drawFaults()
+	kind := t.Weighted([]int{4, 3, 2, 1, 1}, "read-kind")
+	e.begin(false)
 	o, _ := e.modelOf(path)
+	if e.ambiguous() {
+		o = Outcome{E: EAny}
+		e.R.Probe("varexp: value left open (cycle absorbed while a setting is evaluated twice)")
+	}
 	before := fp.Fingerprint(e.rootCfg)
 	cfg, name := e.rootCfg, path
 	via := ""
@@ -745,7 +877,6 @@ func (e *E) Read() {
 		via = " via child " + path[:i]
 		e.R.Probe("varexp: read through a child config")
 	}
-	kind := t.Weighted([]int{4, 3, 2, 1, 1}, "read-kind")
 	switch kind {
 	case 0: // String
 		var s string
@@ -758,13 +889,31 @@ func (e *E) Read() {
 				if err == nil {
 					e.R.Fail("value", "String", "String(%q) = %q but the setting holds a container", name, s)
 				}
+				e.R.Fault("container read as text")
 				break
 			}
 			e.expect("String", path, Outcome{V: &Val{K: VStr, S: txt}}, strconv.Quote(s), err)
 		} else {
 			e.expect("String", path, o, strconv.Quote(s), err)
 		}
-	case 1: // typed getter matching the expected kind, or Unpack of the single setting
+	case 1: // typed getter matching the expected kind, or Child + Unpack for a container
+		if o.E == EOK && (o.V.K == VDict || o.V.K == VList) {
+			// the contents are evaluated by the Unpack of the child, in a call of its own
+			if o.V.Origin != "" {
+				o = e.contentsOf(o.V.Origin)
+			}
+			var c *ucfg.Config
+			var err error
+			var got string
+			e.R.MustComplete("Child", func() { c, err = cfg.Child(name, -1, e.opts...) })
+			if err == nil {
+				got, err = e.unpackCfg(c)
+			}
+			e.R.Tracef("Child(%q)%s + Unpack = %s, %v   [model: %s]", name, via, got, err, describeOutcome(o))
+			e.R.Probe("varexp: reference to a container read with its type")
+			e.expect("Child", path, o, got, err)
+			break
+		}
 		if o.E == EOK {
 			var got string
 			var err error
@@ -834,6 +983,51 @@ func (e *E) Read() {
 	}
 }
 
+// contentsOf evaluates the settings below a root path as one Unpack of that
+// sub-config does: every setting in a fresh evaluation, sharing one call.
+func (e *E) contentsOf(origin string) Outcome {
+	sub, _ := e.subDict(e.root, origin)
+	d := &Val{K: VDict, D: map[string]*Val{}}
+	ks := make([]string, 0, len(sub))
+	for k := range sub {
+		ks = append(ks, k)
+	}
+	sort.Strings(ks)
+	absorbed := false
+	var bad *Outcome
+	for _, k := range ks {
+		e.begin(true)
+		o, _ := e.modelOf(origin + "." + k)
+		if e.sawAbsorb {
+			absorbed = true
+		}
+		if o.E != EOK {
+			if bad == nil {
+				oo := o
+				bad = &oo
+			} else if bad.E != o.E || bad.Msg != o.Msg {
+				if bad.E == EAny || o.E == EAny || bad.E == EType || o.E == EType {
+					bad.E = EAny
+				} else if bad.E != EAny {
+					bad.E = EErr
+				}
+			}
+			continue
+		}
+		d.D[k] = o.V
+	}
+	if absorbed {
+		return Outcome{E: EAny}
+	}
+	if bad != nil {
+		if bad.E == EType {
+			return Outcome{E: EAny}
+		}
+		return *bad
+	}
+	return Outcome{V: d}
+}
+
 func describeOutcome(o Outcome) string {
 	if o.E == EOK {
 		return o.V.Canon()
@@ -867,20 +1061,29 @@ func (e *E) readAll() {
 	// model: every setting
 	outs := map[string]Outcome{}
 	failing := 0
-	kinds := map[EKind]bool{}
+	absorbed := false
 	for _, p := range e.settingNames() {
+		e.begin(true)
 		o, _ := e.modelOf(p)
 		outs[p] = o
 		if o.E != EOK {
 			failing++
-			kinds[o.E] = true
 		}
+		if e.sawAbsorb {
+			absorbed = true
+		}
+	}
+	if absorbed {
+		// all settings are evaluated in one call sharing the value cache, in
+		// enumeration order: with an absorbed cycle the statements leave the values open
+		e.R.Probe("varexp: value left open (cycle absorbed while a setting is evaluated twice)")
+		return
 	}
 	e.R.Tracef("Unpack(root) = %s, %v", canonOf(m), err)
 	if failing > 0 {
 		if err == nil {
 			for _, p := range e.settingNames() {
-				if outs[p].E != EOK && outs[p].E != EType {
+				if outs[p].E != EOK && outs[p].E != EType && outs[p].E != EAny {
 					e.expect("Unpack", p, outs[p], canonOf(lookupGo(m, p)), nil)
 				}
 			}
@@ -931,12 +1134,26 @@ func (e *E) Drift() {
 		}
 		in := layerToGo(map[string]*setting{name: ns})
 		var err error
+		if old != nil && old.expr != nil {
+			// Merge evaluates the old value to decide whether both sides are containers; what that
+			// does when a reference points into the subtree being merged is outside C02/C08
+			// (DESIGN.md Appendix A), so an expression is replaced by remove + merge.
+			e.R.MustComplete("Remove", func() { _, err = e.rootCfg.Remove(name, -1, e.baseOpts...) })
+			if err != nil {
+				e.R.Fail("create", "Remove", "Remove(%q) failed: %v", name, err)
+			}
+		}
 		e.R.MustComplete("Merge", func() { err = e.rootCfg.Merge(in, e.baseOpts...) })
 		e.R.Tracef("drift: root.Merge(%v) = %v", describeLayer(map[string]*setting{name: ns}), err)
 		if err != nil {
 			e.R.Fail("create", "Merge", "Merge of a well-formed setting failed: %v", err)
 		}
 		e.root[name] = ns
+		if i := strings.IndexByte(name, '.'); i >= 0 {
+			if enc, ok := e.root[name[:i]]; ok && enc.lit != nil && enc.lit.K == VDict && len(enc.lit.D) == 0 {
+				delete(e.root, name[:i])
+			}
+		}
 		e.R.StateOps++
 		e.R.Probe("varexp: value (re)defined after the setting that references it")
 	case 1: // change an Env config
@@ -978,6 +1195,12 @@ func (e *E) Drift() {
 			e.R.Fail("create", "Remove", "Remove(%q) failed: %v", name, err)
 		}
 		delete(e.root, name)
+		if i := strings.IndexByte(name, '.'); i >= 0 {
+			if _, more := e.subDict(e.root, name[:i]); !more {
+				// the enclosing dictionary stays, empty
+				e.root[name[:i]] = &setting{lit: &Val{K: VDict, D: map[string]*Val{}}}
+			}
+		}
 		e.R.Tracef("drift: root.Remove(%s)", name)
 		e.R.StateOps++
 	}
